@@ -79,6 +79,44 @@ func TestZZVerifEmit(t *testing.T) {
 			})
 		}
 	}
+	// the same operation emitted TWICE in one function, in two blocks neither of which
+	// dominates the other (`if c { return x op y }; return x op y`): whatever the builder
+	// remembers from the first emission, the second must be complete on its own (same guard,
+	// same result). Only the LAST block is judged (govc cuts the function at its last label).
+	mk2 := func(name string, params []types.Type, res types.Type, body func(b Builder, fn Function) Expr) {
+		defer func() {
+			if r := recover(); r != nil {
+				fmt.Fprintf(os.Stderr, "ZZCASE-PANIC %s: %v\n", name, r)
+			}
+		}()
+		var vars []*types.Var
+		for i, p := range params {
+			vars = append(vars, types.NewVar(0, nil, fmt.Sprintf("a%d", i), p))
+		}
+		vars = append(vars, types.NewVar(0, nil, "c", boolT))
+		sig := types.NewSignatureType(nil, nil, nil, types.NewTuple(vars...), types.NewTuple(types.NewVar(0, nil, "", res)), false)
+		fn := pkg.NewFunc(name, sig, InGo)
+		b := fn.MakeBody(3)
+		b.If(fn.Param(len(params)), fn.Block(1), fn.Block(2))
+		b.SetBlock(fn.Block(1))
+		b.Return(body(b, fn))
+		b.SetBlock(fn.Block(2))
+		b.Return(body(b, fn))
+		b.EndBuild()
+	}
+	for _, op := range []token.Token{token.QUO, token.REM, token.SHL, token.SHR, token.ADD, token.LSS} {
+		for _, k := range zzIntKinds {
+			op, k := op, k
+			T := types.Typ[k]
+			res := types.Type(T)
+			if isCmp(op) {
+				res = boolT
+			}
+			mk2(fmt.Sprintf("binop__%s__%s__%s__again", zzOpName(op), zzName(k), zzName(k)), []types.Type{T, T}, res, func(b Builder, fn Function) Expr {
+				return b.BinOp(op, fn.Param(0), fn.Param(1))
+			})
+		}
+	}
 	// shifts: every (operand, count) type pair
 	for _, op := range []token.Token{token.SHL, token.SHR} {
 		for _, kx := range zzIntKinds {
